@@ -21,7 +21,7 @@ pub struct C04Doc {
     pub b: Vec<FileEnt>,
 }
 
-pub const PROBES: [&str; 10] = [
+pub const PROBES: [&str; 11] = [
     "file_only_in_a",
     "file_only_in_b",
     "file_in_both_same",
@@ -32,6 +32,7 @@ pub const PROBES: [&str; 10] = [
     "size_over_64k",
     "listing_permuted",
     "short_or_interrupted_io",
+    "file_name_extends_sibling_directory_name",
 ];
 
 const BOUNDARY_SIZES: [usize; 22] = [
@@ -48,7 +49,13 @@ fn gen_path(r: &mut Rng, depth: usize) -> String {
     for _ in 0..depth {
         parts.push(format!("d{}", r.below(3)));
     }
-    parts.push(format!("{}{}", r.pick(&NAMES), r.below(4)));
+    if r.chance(1, 5) {
+        // a file whose name extends a sibling directory's name by a character that sorts before
+        // '/' ("d1.ver" next to "d1/"): byte-wise and component-wise path orders disagree here
+        parts.push(format!("d{}{}{}", r.below(3), r.pick(&[".", "-", " ", "+", "#", "!"]), r.pick(&["ver", "bak", "x", "0"])));
+    } else {
+        parts.push(format!("{}{}", r.pick(&NAMES), r.below(4)));
+    }
     parts.join("/")
 }
 
@@ -143,6 +150,8 @@ pub fn directed() -> Vec<Doc> {
             f("same.bin", 128, 2),
             f("changed.bin", 32000, 3),
             f("d0/d1/d2/d3/deep_a", 7, 4),
+            f("d1.ver", 20, 11),
+            f("d0/d2-old", 5, 14),
         ],
         b: vec![
             f("only_b.bin", 65537, 5),
@@ -151,6 +160,9 @@ pub fn directed() -> Vec<Doc> {
             f("d0/d1/d2/d3/deep_b", 129, 8),
             f("d0/second", 3, 9),
             f("d1/third", 3, 10),
+            f("d1.ver", 20, 11),
+            f("d0/d2/inner", 5, 12),
+            f("d0/d2-old", 5, 13),
         ],
     };
     let mut out = vec![];
@@ -248,6 +260,26 @@ pub fn run(doc: &Doc, body: &C04Doc, trace: bool) -> RunResult {
         }
         if n > 65536 {
             h.probe(7);
+        }
+    }
+    {
+        let all: Vec<&str> = in_a.keys().chain(in_b.keys()).copied().collect();
+        let mut hit = false;
+        for f in &all {
+            // f = "<parent>/dK<c>rest" with c < '/', and some other path lies under "<parent>/dK/"
+            let (parent, name) = match f.rfind('/') {
+                Some(p) => (&f[..p + 1], &f[p + 1..]),
+                None => ("", *f),
+            };
+            if name.len() > 2 && name.starts_with('d') && name.as_bytes()[2] < b'/' {
+                let dir = format!("{}{}/", parent, &name[..2]);
+                if all.iter().any(|o| o.starts_with(&dir)) {
+                    hit = true;
+                }
+            }
+        }
+        if hit {
+            h.probe(10);
         }
     }
     let class_of = |p: &str| -> &'static str {
